@@ -12,7 +12,7 @@ def closure_bodies_calling(F, parent_nname, callee):
     """closure bodies `parent::{closure#k}` that call `callee`"""
     out = []
     for b in F.all_bodies():
-        if b.kind == "closure" and b.nname.startswith(parent_nname + "::{closure#"):
+        if b.kind == "closure" and (b.nname.startswith(parent_nname + "::{closure#") or F.owner(b.nname) == parent_nname):
             if any(callee_of(t) == callee for _, t in b.calls()):
                 out.append(b.nname)
     return out
@@ -37,10 +37,7 @@ def scope_sites(ctx, body, callee):
 
 def try_of_call(ctx, body, call_bb):
     """(try_bb, continue_label, break_label) of the `?` applied to the result of the call in call_bb"""
-    for tb, (cont, brk, ope) in C.try_err_edges(ctx, body).items():
-        if ope is not None and any(c[3] == call_bb for c in calls_in(ope)):
-            return tb, cont, brk
-    return None
+    return C.try_of(ctx, body, call_bb)
 
 
 def bool_switch_on_payload(ctx, body, call_bb):
